@@ -12,7 +12,7 @@ Definition gen_facts : facts := mkFacts
   [(CEq, K_RELATIONAL_EQ); (CNe, K_RELATIONAL_NEQ); (CLt, K_RELATIONAL_LT); (CLe, K_RELATIONAL_LEQ); (CGt, K_RELATIONAL_GT); (CGe, K_RELATIONAL_GEQ)]
   [CBody; CTest; COrelse]
   CmpAndPairs CallRaise true true
-  []
+  [(K_FUNCTION_LOG, 10%Z)]
   ["math"%string; "np"%string; "numpy"%string]
   [("e"%string, ME); ("pi"%string, MPi); ("inf"%string, MInf); ("nan"%string, MNan)]
   Product NsSignAbs IaSetSymbol true.
